@@ -3,6 +3,7 @@ package main
 import (
 	"encoding/json"
 	"fmt"
+	"math"
 	"os"
 	"sort"
 	"strings"
@@ -63,6 +64,24 @@ var geomMembers = []string{
 	`"foo":{"bar":[1,2,3]}`,
 	`"id":"g","crs":null`,
 }
+
+// forceShape (development aid, $GEOSIM_FORCE_SHAPE=sweep|crowd|marathon|argstorm|duel):
+// every run gets that workload shape. Never set by the registered checks.
+var forceShape = func() int {
+	switch os.Getenv("GEOSIM_FORCE_SHAPE") {
+	case "sweep":
+		return 0
+	case "crowd":
+		return 8
+	case "marathon":
+		return 12
+	case "argstorm":
+		return 16
+	case "duel":
+		return 21
+	}
+	return -1
+}()
 
 type gen struct {
 	r    *Rng
@@ -919,6 +938,9 @@ func genSpec(seed uint64, worker, run int, tier string) (*Spec, *Rng, faultSet) 
 		// method (sweep) or many arguments inside its bounding box (argstorm)
 		kshape = r.Pick(0, 0, 16, 16, 16, 9, 13)
 	}
+	if forceShape >= 0 {
+		kshape = forceShape
+	}
 	switch k := kshape; {
 	case k < 6:
 		g.sweep(s, hot, fs)
@@ -1105,7 +1127,75 @@ func (g *gen) argstormOn(s *Spec, fs faultSet, target int, useTarget bool) {
 		}
 		s.Tasks = append(s.Tasks, ops)
 	}
+	// VOCABULARY mode (half of the storms): all callers draw their arguments
+	// from the same two to four argument tuples, so that the SAME argument
+	// meets the same receiver again and again from different callers, next to
+	// a different argument with (usually) a different answer - what a memo
+	// keyed by the argument (last point tested, last window searched) needs
+	// before a torn or mixed-up entry becomes a wrong answer. The first tuple
+	// lies near the centre of the target, the second outside of it, further
+	// ones anywhere in its box. The choices come from a forked generator:
+	// every other draw of the run is what it was without this mode.
 	s.Strategy = "argstorm"
+	vr := NewRng(splitmix(deriveSeed(s.Seed, s.Worker, s.Run) ^ 0x766f636162756c61))
+	if vr.Chance(0.5) {
+		type argTuple struct {
+			pt   [2]float64
+			rect [4]float64
+			a    int
+		}
+		if big := s.Pool[h].Shape.N >= 64 && len(s.Pool[h].Children) == 0; !big && !useTarget && vr.Chance(0.7) {
+			// no large geometry here: the target becomes a large copy of the
+			// pool's first polygon or line (indexes, and whatever else is only
+			// worth its cost on large geometries, exist from a size upwards)
+			for i := range s.Pool {
+				if k := s.Pool[i].Kind; (k == "Polygon" || k == "LineString") && s.Pool[i].Via != "share" && s.Pool[i].Via != "world" {
+					c := *cloneRecipe(&s.Pool[i])
+					c.Shape.N = g.tp.ringLarge[vr.Intn(len(g.tp.ringLarge))]
+					s.Pool = append(s.Pool, c)
+					h = len(s.Pool) - 1
+					sh = c.Shape
+					if sh.R <= 0 {
+						sh.R = 1
+					}
+					for t := range s.Tasks {
+						for j := range s.Tasks[t] {
+							s.Tasks[t][j].R = h
+							if s.Tasks[t][j].A == i && len(ptObjs) == 0 {
+								s.Tasks[t][j].A = h
+							}
+						}
+					}
+					break
+				}
+			}
+		}
+		var vocab []argTuple
+		nv := vr.Pick(2, 2, 3, 4)
+		for k := 0; k < nv; k++ {
+			src := s.Tasks[vr.Intn(len(s.Tasks))]
+			o := src[vr.Intn(len(src))]
+			if k < 2 {
+				th := 2 * math.Pi * vr.Float()
+				d := sh.R * 0.25 * vr.Float()
+				if k == 1 {
+					d = sh.R * (1.15 + 0.5*vr.Float())
+				}
+				x, y := q64(sh.Cx+d*math.Cos(th)), q64(sh.Cy+d*math.Sin(th))
+				w, hh := (o.Rect[2]-o.Rect[0])/2, (o.Rect[3]-o.Rect[1])/2
+				o.Pt = [2]float64{x, y}
+				o.Rect = [4]float64{q64(x - w), q64(y - hh), q64(x + w), q64(y + hh)}
+			}
+			vocab = append(vocab, argTuple{o.Pt, o.Rect, o.A})
+		}
+		for t := range s.Tasks {
+			for i := range s.Tasks[t] {
+				v := vocab[vr.Intn(len(vocab))]
+				s.Tasks[t][i].Pt, s.Tasks[t][i].Rect, s.Tasks[t][i].A = v.pt, v.rect, v.a
+			}
+		}
+		s.Strategy = "vocab"
+	}
 }
 
 // duel: two objects (of the same kind when possible) are used as receiver and
@@ -1271,19 +1361,47 @@ func finalizeSchedule(s *Spec, r *Rng, fs faultSet, soloSteps int64) {
 	}
 	var abs []absDecision
 	var hotDec []verifsim.Decision
+	hotAbs := false // the positions in abs count hot yield points only
 	pre := ""
-	if s.Strategy == "sweep" || s.Strategy == "crowd" || s.Strategy == "marathon" || s.Strategy == "argstorm" || s.Strategy == "duel" {
+	if s.Strategy == "sweep" || s.Strategy == "crowd" || s.Strategy == "marathon" || s.Strategy == "argstorm" || s.Strategy == "vocab" || s.Strategy == "duel" {
 		pre = s.Strategy + "+"
 	}
 	defer func() { s.Strategy = pre + s.Strategy }()
 	k0 := r.Intn(100)
-	if nHotSites > 0 && r.Chance(0.35) {
-		k0 = 1000 // the library has synchronisation operations: aim at their windows
+	if nHotSites > 0 && r.Chance(0.35) && lastSoloHot > 0 {
+		// the library has synchronisation operations and this workload goes
+		// through some: aim at their windows
+		k0 = 1000
 	}
 	if s.Strategy == "crowd" && r.Chance(0.5) {
 		k0 = 30 // pile-up: the point of a crowd is that everybody is in flight at once
 	}
+	if debugSolo && pre == "vocab+" {
+		o := s.Tasks[0][0]
+		ms := map[string]int{}
+		for _, t := range s.Tasks {
+			for _, op := range t {
+				ms[op.M]++
+			}
+		}
+		fmt.Fprintf(os.Stderr, "VOCAB run=%d target=%s/%s N=%d opts=%+v hot=%d ms=%v\n", s.Run, s.Pool[o.R].Kind, s.Pool[o.R].Via, s.Pool[o.R].Shape.N, s.Pool[o.R].Opts, lastSoloHot, ms)
+	}
+	// (forked generator: the draws of the older strategies stay what they were)
+	vr := NewRng(splitmix(deriveSeed(s.Seed, s.Worker, s.Run) ^ 0x686f747374616c6c))
+	if lastSoloHot > 0 && pre == "vocab+" && vr.Chance(0.6) {
+		k0 = 1000 // argument vocabularies exist for memo protocols: aim at their windows
+	}
 	switch k := k0; {
+	case k == 1000 && lastSoloHot > 0 && vr.Chance(0.4):
+		// one to three callers are parked right after a synchronisation
+		// operation, each until every other caller has finished ALL its calls
+		// (a multi-step publication - seqlock, reference count, double-checked
+		// flag - left half done while complete operations of others go by)
+		s.Strategy = "hotstall"
+		for i := vr.Range(1, 3); i > 0; i-- {
+			abs = append(abs, absDecision{at: 1 + int64(vr.U64()%uint64(lastSoloHot)), to: verifsim.ToDemote})
+		}
+		hotAbs = true
 	case k == 1000:
 		s.Strategy = "hot"
 		n := r.Range(4, 400)
@@ -1363,7 +1481,7 @@ func finalizeSchedule(s *Spec, r *Rng, fs faultSet, soloSteps int64) {
 			gap = 1 << 30
 		}
 		prev += gap
-		s.Decisions = append(s.Decisions, verifsim.Decision{Gap: int32(gap), To: a.to})
+		s.Decisions = append(s.Decisions, verifsim.Decision{Gap: int32(gap), To: a.to, Hot: hotAbs && a.to != verifsim.ToGC})
 	}
 	if len(hotDec) > 0 {
 		s.Decisions = hotDec
